@@ -21,6 +21,8 @@ CORE = [
     ["THREAD 1 J A", "THREAD 2 M A A", "MAIN L1 L2 J1 JA"],
     ["THREAD 1 M L2", "THREAD 2 M L3", "THREAD 3 M", "MAIN L1 JA"],
     ["MAIN JA"],
+    ["THREAD 1 M A", "MAIN L1 P P P I JA"],
+    ["THREAD 1 M", "THREAD 2 M", "MAIN L1 I L2 P I JA"],
 ]
 
 
@@ -45,6 +47,9 @@ def random_scenario(rng):
         rng.shuffle(ops)
         lines.append(("THREAD %d %s %s" % (i, kinds[i], " ".join(ops))).rstrip())
     main = ["L%d" % i for i in range(1, n + 1) if parent[i] == 0]
+    if rng.random() < 0.25:
+        main.insert(rng.randrange(len(main) + 1), "I")
+        main.insert(rng.randrange(len(main) + 1), "P")
     joins = ["J%d" % i for i in range(1, n + 1) if kinds[i] == "J"]
     rng.shuffle(joins)
     manual_launches = any(kinds[parent[c]] == "J" for c in range(1, n + 1) if parent[c] != 0)
